@@ -206,6 +206,8 @@ def run(lines, out, args):
                 # a (factory) instance decorated with implementer(I): an Implements lands in the instance's own __dict__
                 from zope.interface import implementer
                 implementer(st["ifs"][int(f[2])])(st["objs"][int(f[1])])
+            elif op == "addspec":
+                classImplements(st["classes"][int(f[1])], implementedBy(st["classes"][int(f[2])]))
             elif op in ("add", "only", "first"):
                 c = st["classes"][int(f[1])]
                 xs = [st["ifs"][int(x)] for x in f[2].split()]
